@@ -97,7 +97,7 @@ Inductive guard_kind := GZero | GConsistent | GAccept.
    function itself, otherwise the helper whose dominating guard it is *)
 Record guard := mkGuard { g_kind : guard_kind; g_args : list string; g_via : string }.
 
-Inductive path_kind := PReturn | PRaise | PFall.
+Inductive path_kind := PReturn | PRaise | PFall | PNotImpl.   (* PNotImpl: `return NotImplemented` *)
 (* one way out of the function: its kind, the `if` conditions on the way (source text), the guards
    certainly executed before it, and the returned expression / raised exception (source text) *)
 Record path := mkPath { p_kind : path_kind; p_conds : list string; p_guards : list guard; p_text : string }.
